@@ -3675,3 +3675,311 @@ func sortedOnTheWay(p *Program, entry, g *ssa.Function, par *ssa.Parameter, b *s
 	}
 	return "a sorting copy or an in-place sort at every call site", true
 }
+
+// ---------------------------------------------------------------------------
+// HISTORY-READ-ONLY (R15h). The tracker records, per block, the deletion
+// targets it was given. Generating a schedule reverts positions block by
+// block in scratch lists; the recorded lists themselves have to stay as they
+// were, or a second request to the same tracker answers from a damaged
+// history. A recorded list (an element of a [][]uint64 field of the receiver)
+// and everything that may alias it - sub-slices, phi merges, the parameter
+// of a callee it is passed to - must never be written through: no element
+// store, no append onto it, no in-place sort / delete / insert, no copy into it.
+
+func checkHistoryReadOnly(p *Program, r *Report, rule string) {
+	e := p.Func("(*CachingScheduleTracker).GenerateCachingSchedule")
+	if e == nil {
+		r.MissingAnchor(rule, "(*CachingScheduleTracker).GenerateCachingSchedule", "schedule generator not found")
+		return
+	}
+	reach := p.StaticReach(e)
+	reach[e] = true
+	type item struct {
+		fn *ssa.Function
+		v  ssa.Value
+	}
+	seen := map[item]bool{}
+	var work []item
+	nSrc := 0
+	for _, g := range sortedFuncs(p, reach) {
+		if g.Blocks == nil || g.Signature.Recv() == nil || !p.localNamed(g.Signature.Recv().Type(), "CachingScheduleTracker") {
+			continue
+		}
+		for _, b := range g.Blocks {
+			for _, in := range b.Instrs {
+				u, ok := in.(*ssa.UnOp)
+				if !ok || u.Op != token.MUL {
+					continue
+				}
+				ia, ok := u.X.(*ssa.IndexAddr)
+				if !ok {
+					continue
+				}
+				_, f, isField := fieldRead(ia.X)
+				if !isField {
+					continue
+				}
+				outer, ok := ia.X.Type().Underlying().(*types.Slice)
+				if !ok {
+					continue
+				}
+				if inner, ok := outer.Elem().Underlying().(*types.Slice); !ok || !isUint64(inner.Elem()) {
+					continue
+				}
+				_ = f
+				nSrc++
+				work = append(work, item{g, u})
+			}
+		}
+	}
+	var bad ssa.Instruction
+	badWhy := ""
+	mutators := func(c *ssa.CallCommon) (string, int) {
+		f := calleeFunc(c)
+		if f == nil || f.Pkg() == nil {
+			if bn := builtinName(c); bn == "append" {
+				return "append onto", 0
+			} else if bn == "copy" {
+				return "copy into", 0
+			}
+			return "", -1
+		}
+		pkg, name := f.Pkg().Path(), f.Name()
+		switch {
+		case pkg == "sort" && (name == "Slice" || name == "SliceStable" || name == "Sort" || name == "Stable"):
+			return "in-place sort of", 0
+		case strings.HasSuffix(pkg, "slices") && (strings.HasPrefix(name, "Sort") || name == "Delete" || name == "Insert" || name == "Reverse" || name == "Compact"):
+			return "slices." + name + " on", 0
+		}
+		return "", -1
+	}
+	for len(work) > 0 {
+		it := work[len(work)-1]
+		work = work[:len(work)-1]
+		if seen[it] || it.v.Referrers() == nil {
+			continue
+		}
+		seen[it] = true
+		for _, ref := range *it.v.Referrers() {
+			switch x := ref.(type) {
+			case *ssa.Slice:
+				if x.X == it.v {
+					work = append(work, item{it.fn, x})
+				}
+			case *ssa.Phi:
+				work = append(work, item{it.fn, x})
+			case *ssa.IndexAddr:
+				if x.X != it.v || x.Referrers() == nil {
+					continue
+				}
+				for _, r2 := range *x.Referrers() {
+					if st, ok := r2.(*ssa.Store); ok && st.Addr == x && bad == nil {
+						bad, badWhy = st, "an element of a recorded list is overwritten"
+					}
+				}
+			case *ssa.Store:
+				// stored into a local cell or a struct: follow loads of that cell
+				if x.Val == it.v {
+					if al, ok := x.Addr.(*ssa.Alloc); ok && al.Referrers() != nil {
+						for _, r2 := range *al.Referrers() {
+							if u, ok := r2.(*ssa.UnOp); ok && u.Op == token.MUL {
+								work = append(work, item{it.fn, u})
+							}
+						}
+					}
+				}
+			case *ssa.MakeInterface, *ssa.ChangeType:
+				work = append(work, item{it.fn, x.(ssa.Value)})
+			case ssa.CallInstruction:
+				cc := x.Common()
+				if builtinName(cc) == "append" && len(cc.Args) > 0 && cc.Args[0] != it.v {
+					continue // the recorded list is only the source of the appended elements
+				}
+				if why, idx := mutators(cc); idx >= 0 {
+					if idx < len(cc.Args) && cc.Args[idx] == it.v && bad == nil {
+						bad, badWhy = ref, why+" a recorded list"
+					}
+					continue
+				}
+				if sc := cc.StaticCallee(); sc != nil && p.owns(sc) && sc.Blocks != nil {
+					for i, a := range cc.Args {
+						if a == it.v && i < len(sc.Params) {
+							work = append(work, item{sc, sc.Params[i]})
+						}
+					}
+					// a callee that returns (a slice of) its parameter hands the alias back
+					if pi, _, ok := returnsUpdatedParam(sc); ok && pi < len(cc.Args) && cc.Args[pi] == it.v {
+						if v, ok := ref.(ssa.Value); ok {
+							work = append(work, item{it.fn, v})
+							if v.Referrers() != nil {
+								for _, r2 := range *v.Referrers() {
+									if ex, ok := r2.(*ssa.Extract); ok {
+										work = append(work, item{it.fn, ex})
+									}
+								}
+							}
+						}
+					}
+				}
+			}
+		}
+	}
+	key := "(*CachingScheduleTracker).GenerateCachingSchedule/recorded-lists"
+	switch {
+	case nSrc == 0:
+		r.Undecided(rule, key, p.Pos(e.Pos()), "no read of a recorded list found under the schedule generator")
+	case bad != nil:
+		r.Violate(rule, key, posOf(p, bad), badWhy+" ("+p.FuncName(bad.Parent())+"): generating a schedule damages the tracker's recorded history, so the next request to the same tracker is answered from wrong data", "reached from GenerateCachingSchedule")
+	default:
+		r.Discharge(rule, key, p.Pos(e.Pos()), fmt.Sprintf("no write reaches a recorded list or anything that may alias it (%d reads of recorded lists, %d aliases followed)", nSrc, len(seen)), true)
+	}
+}
+
+// ---------------------------------------------------------------------------
+// LOCK-NEVER-REPLACED (R12h). A critical section protects the forest only if
+// everybody locks the same mutex. Overwriting the struct that carries the
+// lock as a whole (`*m = NewMapPollard(...)`), or re-assigning its lock field,
+// swaps the mutex under the goroutines that hold or wait for the old one:
+// the deferred Unlock releases the old mutex while new callers lock the new,
+// free one and run inside the writer's critical section.
+
+func checkLockNeverReplaced(p *Program, r *Report, rule string) {
+	carriesLock := func(t types.Type) (bool, int) {
+		st, ok := t.Underlying().(*types.Struct)
+		if !ok {
+			return false, -1
+		}
+		for i := 0; i < st.NumFields(); i++ {
+			ft := st.Field(i).Type()
+			if pt, ok := ft.Underlying().(*types.Pointer); ok {
+				ft = pt.Elem()
+			}
+			if nt := namedOf(ft); nt != nil && nt.Obj().Pkg() != nil && nt.Obj().Pkg().Path() == "sync" && (nt.Obj().Name() == "RWMutex" || nt.Obj().Name() == "Mutex") {
+				return true, i
+			}
+		}
+		return false, -1
+	}
+	n := 0
+	var bad ssa.Instruction
+	why := ""
+	for _, fn := range p.Funcs {
+		if fn.Blocks == nil || !p.owns(fn) {
+			continue
+		}
+		for _, b := range fn.Blocks {
+			for _, in := range b.Instrs {
+				st, ok := in.(*ssa.Store)
+				if !ok {
+					continue
+				}
+				pt, ok := st.Addr.Type().Underlying().(*types.Pointer)
+				if !ok {
+					continue
+				}
+				// whole-struct store through a pointer that is not a fresh local
+				if has, _ := carriesLock(pt.Elem()); has {
+					if nt := namedOf(pt.Elem()); nt != nil && nt.Obj().Pkg() == p.Types {
+						n++
+						if _, fresh := st.Addr.(*ssa.Alloc); !fresh && bad == nil {
+							bad, why = in, "the whole "+nt.Obj().Name()+" is overwritten through a pointer to a live instance"
+						}
+					}
+					continue
+				}
+				// store into the lock field of a live instance
+				if fa, ok := st.Addr.(*ssa.FieldAddr); ok {
+					if has, idx := carriesLock(deref(fa.X.Type())); has && idx == fa.Field {
+						n++
+						if _, fresh := fa.X.(*ssa.Alloc); !fresh && bad == nil {
+							bad, why = in, "the lock field is re-assigned on a live instance"
+						}
+					}
+				}
+			}
+		}
+	}
+	key := "lock-carrier/never-replaced"
+	if bad != nil {
+		r.Violate(rule, key, posOf(p, bad), why+" (in "+p.FuncName(bad.Parent())+"): goroutines holding or waiting for the old mutex and new callers locking the new one no longer exclude each other, and a deferred Unlock releases a mutex nobody else uses", "in "+p.FuncName(bad.Parent()))
+	} else {
+		r.Discharge(rule, key, "-", fmt.Sprintf("the struct carrying the lock is only ever initialised as a fresh value (%d initialising stores); no live instance is overwritten and its lock field is never re-assigned", n), true)
+	}
+}
+
+// ---------------------------------------------------------------------------
+// CLAIM-CURSOR-READS (R03j). The core walks the claimed (position, hash) pairs
+// with cursors. Every claimed hash has to take part in the computation: a
+// cursor over a list of hashes may only advance where the hash at the cursor
+// has been read in that iteration. Advancing past an entry unread ("it is the
+// same node as the one just calculated") drops a claim without comparing it
+// with anything - a forged hash for a nested target is accepted.
+
+func checkClaimCursorReads(p *Program, r *Report, rule string, a *verifyAnchors) {
+	if a.core == nil {
+		r.MissingAnchor(rule, "calculateHashes", "hashing core not found")
+		return
+	}
+	core := a.core
+	// cursors: loop-header phis used as the index of a load from a []Hash
+	reads := map[*ssa.Phi][]*ssa.IndexAddr{}
+	for _, b := range core.Blocks {
+		for _, in := range b.Instrs {
+			ia, ok := in.(*ssa.IndexAddr)
+			if !ok || !isHashSlice(ia.X.Type()) {
+				continue
+			}
+			ph, ok := ia.Index.(*ssa.Phi)
+			if !ok || len(latches(ph.Block())) == 0 {
+				continue
+			}
+			loaded := false
+			if ia.Referrers() != nil {
+				for _, ref := range *ia.Referrers() {
+					if u, ok := ref.(*ssa.UnOp); ok && u.Op == token.MUL {
+						loaded = true
+					}
+				}
+			}
+			if loaded {
+				reads[ph] = append(reads[ph], ia)
+			}
+		}
+	}
+	n := 0
+	var phis []*ssa.Phi
+	for ph := range reads {
+		phis = append(phis, ph)
+	}
+	sort.Slice(phis, func(i, j int) bool { return phis[i].Pos() < phis[j].Pos() })
+	for _, ph := range phis {
+		if ph.Referrers() == nil {
+			continue
+		}
+		ord := 0
+		for _, ref := range *ph.Referrers() {
+			inc, ok := ref.(*ssa.BinOp)
+			if !ok || inc.Op != token.ADD || inc.X != ssa.Value(ph) {
+				continue
+			}
+			if c, ok := inc.Y.(*ssa.Const); !ok || c.Value == nil || c.Int64() != 1 {
+				continue
+			}
+			ord++
+			n++
+			key := fmt.Sprintf("%s/cursor:%s/advance#%d", p.FuncName(core), ph.Comment, ord)
+			read := false
+			for _, ia := range reads[ph] {
+				if ia.Block() == inc.Block() || ia.Block().Dominates(inc.Block()) {
+					read = true
+				}
+			}
+			if read {
+				r.Discharge(rule, key, posOf(p, inc), "the cursor advances only after the hash at the cursor was read in this iteration", true)
+			} else {
+				r.Violate(rule, key, posOf(p, inc), "the cursor over a list of hashes advances on a path that has not read the hash at the cursor: that entry of the claim takes no part in the computation, so whatever hash it carries is accepted", "in "+p.FuncName(core))
+			}
+		}
+	}
+	r.Floor(rule, "advances of hash cursors in the core", n, 3)
+}
